@@ -248,4 +248,71 @@ func TestVerifC08Client(t *testing.T) {
 			}
 		}
 	}()
+	// ---- several establishers publish what they found at the same instant: generations of one range (a region closed and
+	// reopened several times while lookups were under way), or a parent and its daughters. Whatever the order in which the
+	// puts take effect, afterwards the cache holds no two intersecting regions and the newest generation is the one that
+	// stayed; a region that lost its place is dead.
+	func() {
+		c := newClient("zk.invalid:2181", Logger(discardLogger))
+		defer c.Close()
+		mkr := func(start, stop string, id int) hrpc.RegionInfo {
+			name := []byte(fmt.Sprintf("t,%s,%d", start, id))
+			return region.NewInfo(uint64(id), nil, []byte("t"), name, []byte(start), []byte(stop))
+		}
+		rounds := 3000
+		for round := 0; round < rounds && len(rep.Violations) < 5; round++ {
+			base := 10 * (round + 1)
+			var regs []hrpc.RegionInfo
+			if round%2 == 0 {
+				for k := 1; k <= 8; k++ {
+					regs = append(regs, mkr("b", "f", base+k))
+				}
+			} else { // a parent, its daughters, their daughters - and one more generation of the parent's range
+				regs = []hrpc.RegionInfo{mkr("b", "f", base+1), mkr("b", "d", base+2), mkr("d", "f", base+3), mkr("b", "c", base+4),
+					mkr("c", "d", base+5), mkr("b", "f", base+6), mkr("d", "e", base+7), mkr("e", "f", base+8)}
+			}
+			start := make(chan struct{})
+			var wg sync.WaitGroup
+			for _, r := range regs {
+				wg.Add(1)
+				go func() {
+					defer wg.Done()
+					<-start
+					c.regions.put(r)
+				}()
+			}
+			close(start)
+			wg.Wait()
+			var cached []hrpc.RegionInfo
+			enum, err := c.regions.regions.SeekFirst()
+			for err == nil {
+				var r hrpc.RegionInfo
+				_, r, err = enum.Next()
+				if err == nil {
+					cached = append(cached, r)
+				}
+			}
+			for i, a := range cached {
+				for _, b := range cached[i+1:] {
+					if bytes.Compare(a.StartKey(), b.StopKey()) < 0 && bytes.Compare(b.StartKey(), a.StopKey()) < 0 {
+						rep.bad("cached-regions-overlap", "simultaneous puts, round %d: the cache holds %q [%q,%q) and %q [%q,%q) which intersect",
+							round, a.Name(), a.StartKey(), a.StopKey(), b.Name(), b.StartKey(), b.StopKey())
+					}
+				}
+			}
+			if round%2 == 0 && (len(cached) != 1 || cached[0].ID() != uint64(base+8)) {
+				var ids []uint64
+				for _, r := range cached {
+					ids = append(ids, r.ID())
+				}
+				rep.bad("older-region-survived", "simultaneous puts, round %d: generations %d..%d of one range were put at the same time and the cache is left with %v "+
+					"(the newest, %d, must be the one that stays)", round, base+1, base+8, ids, base+8)
+			}
+			for _, r := range cached { // the next round starts from an empty cache
+				c.regions.del(r)
+			}
+		}
+		rep.Scenarios++
+		rep.Distinct++
+	}()
 }
